@@ -258,29 +258,39 @@ def _worker(job, chk):
                 _report(chk, probs, use_vpc, "cut", n0, hist, step, cut)
             chk.count("cut_positions", n - 1)
     elif kind == "error":
-        # an endpoint that answers ERROR: the constructor and reconfigure_nodes() must fail with a memcached error
-        net = stacks.new_net(None, servers=())
-        net.add_server(EP_HOST, int(EP_PORT), cluster=None)
-        chk.add()
-        try:
-            AWSElastiCacheHashClient(ENDPOINT, socket_module=net.module(), use_vpc=use_vpc, connect_timeout=1, timeout=1)
-            res = "returned normally"
-        except MemcacheError:
-            res = None
-        except Exception as e:
-            res = f"raised {type(e).__name__}: {e}" + (" after waiting for bytes that never come" if net.blocked else "")
-        if res:
-            chk.violation("error-endpoint|constructor", f"endpoint answers ERROR to 'config get cluster': the constructor {res} "
-                          f"instead of raising the memcached error", {"kind": "error", "use_vpc": use_vpc, "n0": n0})
-        w = World(L0, use_vpc, "whole")
-        w.ep.cluster = None
-        w._exchange(lambda: w.client.reconfigure_nodes(), None)
-        chk.add()
-        if not isinstance(w.exc, MemcacheError):
-            chk.violation("error-endpoint|reconfigure_nodes", f"endpoint answers ERROR: reconfigure_nodes() "
-                          f"{'returned normally' if w.exc is None else 'raised ' + type(w.exc).__name__ + ': ' + str(w.exc)}"
-                          f"{' after waiting for bytes that never come' if w.blocked else ''} instead of raising the memcached error",
-                          {"kind": "error", "use_vpc": use_vpc, "n0": n0})
+        # an endpoint that answers ERROR (and then either stays silent or hangs up): the constructor and
+        # reconfigure_nodes() must fail with a memcached error
+        for hangup in (False, True):
+            tag = "error-endpoint-hangs-up" if hangup else "error-endpoint"
+            net = stacks.new_net(None, servers=())
+            net.add_server(EP_HOST, int(EP_PORT), cluster=None)
+            for srv in net.servers.values():
+                srv.hangs_up_after_error = hangup
+            chk.add()
+            try:
+                AWSElastiCacheHashClient(ENDPOINT, socket_module=net.module(), use_vpc=use_vpc, connect_timeout=1, timeout=1)
+                res, et = "returned normally", "no-error"
+            except MemcacheError:
+                res = None
+            except Exception as e:
+                et = type(e).__name__
+                res = f"raised {type(e).__name__}: {e}" + (" after waiting for bytes that never come" if net.blocked else "")
+            if res:
+                chk.violation(f"{tag}|constructor|{et}", f"endpoint answers ERROR to 'config get cluster'"
+                              f"{' and closes the connection' if hangup else ''}: the constructor {res} "
+                              f"instead of raising the memcached error", {"kind": "error", "use_vpc": use_vpc, "n0": n0})
+            w = World(L0, use_vpc, "whole")
+            w.ep.cluster = None
+            w.ep.hangs_up_after_error = hangup
+            w._exchange(lambda: w.client.reconfigure_nodes(), None)
+            chk.add()
+            if not isinstance(w.exc, MemcacheError):
+                et = "no-error" if w.exc is None else type(w.exc).__name__
+                chk.violation(f"{tag}|reconfigure_nodes|{et}", f"endpoint answers ERROR"
+                              f"{' and closes the connection' if hangup else ''}: reconfigure_nodes() "
+                              f"{'returned normally' if w.exc is None else 'raised ' + type(w.exc).__name__ + ': ' + str(w.exc)}"
+                              f"{' after waiting for bytes that never come' if w.blocked else ''} instead of raising the memcached error",
+                              {"kind": "error", "use_vpc": use_vpc, "n0": n0})
 
 
 def _report(chk, probs, use_vpc, delivery, n0, hist, cut_step, cut):
